@@ -11,7 +11,7 @@
    EVERY schedule, the repaired code (v0 = false). *)
 From SC Require Import Base.Prelude Resource.Impl Resource.Spec Resource.Pull Resource.ImplProofs
   Resource.Flat Resource.FlatProofs Resource.Judge Conc.Lts Conc.LtsProofs Conc.DeleteProofs Conc.FlatInst Conc.Judge
-  Conc.GenLts Conc.GenProofs Conc.LinSound Conc.AtomicDefs Gen.C02Atomic Conc.AtomicTable.
+  Conc.GenLts Conc.GenProofs Conc.LinSound Conc.AtomicDefs Gen.C02Atomic Conc.AtomicTable Conc.CfgLts Conc.CfgProofs Conc.CreatedProofs.
 From Coq Require Import Sorted.
 
 Section C02.
@@ -345,6 +345,149 @@ Print Assumptions C02_checker_complete.
 Theorem C02_lock_table : atomic_table_ok atomic_rows = true.
 Proof. exact atomic_table_holds. Qed.
 Print Assumptions C02_lock_table.
+
+(* ---------- the created callback (WithCreatedCallback) is counted ----------
+   For every program (with or without generated ids), candidate assignment and schedule: a call invokes its
+   created callback at most once, and never without the option.  While it holds the provisional `created`
+   message (allocated at the first read of an absent id, or at the re-read under the write lock when the
+   item read at first has been deleted meanwhile) it has invoked it exactly once; once it has saved, it has
+   invoked it exactly once if the change it committed and is about to publish is an ADD, and not at all if
+   it is an UPDATE.  (A call that allocated and then lost the race has invoked it and created nothing:
+   C02_created_callback_fires_on_lost_race.) *)
+Section C02_created_callback.
+  Variable M : Type.
+  Variable m_eqb : M -> M -> bool.
+  Variable m_empty : M.
+  Variable writer : Type.
+  Variable w_validate : writer -> option Z.
+  Variable w_merge : writer -> M -> M -> M.
+  Variable rmask : Type.
+  Variable clock_at : Z -> Z.
+  Variable str_ltb : string -> string -> bool.
+  Variable idfun : option (string -> string).
+  Variable prog : list (call M writer rmask).
+  Variable cands : nat -> list string.
+  Variable v0 : vstate M.
+  Variable c0 : cstate M.
+
+  Notation grun := (grun m_eqb m_empty w_validate w_merge clock_at str_ltb idfun false false prog cands).
+  Notation cb_at := (cb_at M writer rmask).
+
+  Theorem C02_created_callback_count : forall sched t,
+    let gs := grun sched (ginit prog v0 c0) in
+    0 <= g_created gs t <= 1 /\
+    (cb_at prog t = false -> g_created gs t = 0) /\
+    (forall old cr, nth_error (st_pcs (g_st gs)) t = Some (PRead old cr) -> cb_at prog t = true ->
+                    (g_created gs t = 1 <-> cr = true)) /\
+    (forall nv e, nth_error (st_pcs (g_st gs)) t = Some (PSavedC nv e) -> cb_at prog t = true ->
+                  (g_created gs t = 1 <-> ce_kind e = KAdd)).
+  Proof. intros sched t. apply created_count. Qed.
+End C02_created_callback.
+Print Assumptions C02_created_callback_count.
+
+(* ---------- the configuration the resources are constructed with (Conc/CfgLts.v) ----------
+   A program runs on a Value and a Collection constructed with: an equivalence (WithEquivalence /
+   WithMessageEquivalence / WithNoDuplicates; usually NOT exact: a float tolerance, ignored time fields), an
+   id interceptor, an initial value or none, initial contents.  THE EQUIVALENCE PLAYS NO ROLE IN THE WRITE
+   PATH: for every program and every schedule the state reached -- each call's result or parking place, the
+   stored value and items with their versions, the linearization witness, the commit logs, the raw events
+   offered to each subscriber -- is the same whatever the equivalence; only what the Pull goroutines pass on
+   to their subscribers depends on it (non-vacuity: C02_nonvacuous_equivalence_is_configured).  Hence a
+   conflict between two writers is never decided by the equivalence: "equivalent" is not "unchanged". *)
+Section C02_configuration.
+  Variable M : Type.
+  Variable m_eqb : M -> M -> bool.
+  Variable m_empty : M.
+  Variable writer : Type.
+  Variable w_validate : writer -> option Z.
+  Variable w_merge : writer -> M -> M -> M.
+  Variable rmask : Type.
+  Variable r_filter : rmask -> M -> M.
+  Variable clock_at : Z -> Z.
+  Variable str_ltb : string -> string -> bool.
+  Hypothesis m_eqb_eq : forall a b, m_eqb a b = true -> a = b.
+  Hypothesis ltb_irrefl : forall a, str_ltb a a = false.
+  Hypothesis ltb_trans : forall a b c, str_ltb a b = true -> str_ltb b c = true -> str_ltb a c = true.
+  Hypothesis ltb_total : forall a b, str_ltb a b = false -> str_ltb b a = false -> a = b.
+
+  Notation crun := (crun m_eqb m_empty w_validate w_merge clock_at str_ltb false false).
+  Notation observe := (observe m_eqb m_empty w_validate w_merge r_filter clock_at str_ltb false false).
+
+  Theorem C02_equivalence_plays_no_role :
+    forall (rc rc' : rconfig M) (prog : list (call M writer rmask)) (sched : list nat),
+    rc_idfun rc = rc_idfun rc' -> rc_vinit rc = rc_vinit rc' -> rc_cinit rc = rc_cinit rc' ->
+    ob_state (observe rc prog sched) = ob_state (observe rc' prog sched) /\
+    forall k, crun rc prog (firstn k sched) = crun rc' prog (firstn k sched).
+  Proof.
+    intros rc rc' prog sched Hi Hv Hc. split.
+    - apply crun_same_but_equiv; assumption.
+    - intro k. apply crun_same_but_equiv; assumption.
+  Qed.
+
+  (* ... and under EVERY configuration the run is linearizable, with the witness built alongside it
+     (C02_linearizable; likewise every other theorem above: the configured run is that run) *)
+  Theorem C02_linearizable_configured :
+    forall (rc : rconfig M) (prog : list (call M writer rmask)) (sched : list nat),
+    sorted str_ltb (c_items (rc_cinit rc)) ->
+    let s := crun rc prog sched in
+    replay m_eqb m_empty w_validate w_merge clock_at str_ltb (rc_idfun rc) prog (rc_vinit rc, rc_cinit rc)
+           (map (@wit_tid M) (st_wit s)) = (mem (st_w s), map (@wit_out M) (st_wit s)) /\
+    (forall t c p, nth_error prog t = Some c -> nth_error (st_pcs s) t = Some p ->
+                   map (@wit_out M) (wit_of t (st_wit s)) = olist (predicted m_eqb m_empty w_merge c p)) /\
+    (forall e, In e (st_wit s) -> nth_error sched (wit_k e) = Some (wit_tid e)) /\
+    StronglySorted (fun a b => (wit_k a < wit_k b)%nat) (st_wit s).
+  Proof.
+    intros rc prog sched Hs.
+    apply C02_linearizable; assumption.
+  Qed.
+
+  (* A get closure that REMEMBERS the message of its first read and answers the re-read under the write
+     lock with it whenever the configured equivalence calls the stored value equivalent (Conc/CfgLts.v
+     trans_rem; not the code) takes exactly the code's steps -- for every call, parking place and memory --
+     when no equivalence is configured or the configured one is exact (WithNoDuplicates) ... *)
+  Theorem C02_remembered_read_harmless_iff_exact :
+    forall (eqv : option (option M -> option M -> bool)) idfun v0 (c : call M writer rmask) p w,
+    match eqv with Some cmp => forall a b, cmp a b = true -> a = b | None => True end ->
+    trans_rem m_eqb m_empty w_validate w_merge clock_at str_ltb v0 eqv idfun c p w =
+    trans m_eqb m_empty w_validate w_merge clock_at str_ltb idfun v0 c p w.
+  Proof.
+    intros [cmp|] idfun v0 c p w H.
+    - apply trans_rem_exact. exact H.
+    - apply trans_rem_none.
+  Qed.
+End C02_configuration.
+Print Assumptions C02_equivalence_plays_no_role.
+Print Assumptions C02_linearizable_configured.
+Print Assumptions C02_remembered_read_harmless_iff_exact.
+
+(* ... and is REFUTED for a tolerance: the writer read 5 and expects 5, a write of 7 (within the tolerance
+   3) landed in the window: the remembering closure saves -- WithExpectedValue(5) succeeds while 7 is
+   stored -- where the code is Aborted and leaves the 7 *)
+Theorem C02_remembered_read_tolerance_refuted :
+  (match trans_rem fmsg_eqb fzero fw_validate fw_merge fclock str_ltb false (Some (interp_ceqv (CqTol Fa 3))) None
+                   rem_call (PRead (Some (mkF 5 0 0)) false) rem_world with
+   | Some (PSavedV nv _, w', _) => fmsg_eqb nv (mkF 6 0 0) && ofm_eqb (v_val (w_v w')) (Some (mkF 6 0 0))
+   | _ => false
+   end) = true /\
+  (match trans fmsg_eqb fzero fw_validate fw_merge fclock str_ltb None false
+                   rem_call (PRead (Some (mkF 5 0 0)) false) rem_world with
+   | Some (PDone (OLost 10), w', _) => ofm_eqb (v_val (w_v w')) (Some (mkF 7 0 0))
+   | _ => false
+   end) = true.
+Proof. exact trans_rem_tolerance_refuted. Qed.
+Print Assumptions C02_remembered_read_tolerance_refuted.
+
+(* non-vacuity: the equivalence IS a parameter of the model.  A subscriber of a Value constructed with the
+   tolerance 3 is not sent the write 5 -> 6, one of a Value without equivalence is; the write happened in both *)
+Example C02_nonvacuous_equivalence_is_configured :
+  map (fun p => List.length (snd p))
+      (ob_vstreams (f_observe (mkCfg (Some (CqTol Fa 3))) None (Some (mkF 5 0 0)) [] eq_prog eq_sched)) = [1%nat] /\
+  map (fun p => List.length (snd p))
+      (ob_vstreams (f_observe (mkCfg None) None (Some (mkF 5 0 0)) [] eq_prog eq_sched)) = [2%nat] /\
+  v_val (w_v (st_w (ob_state (f_observe (mkCfg (Some (CqTol Fa 3))) None (Some (mkF 5 0 0)) [] eq_prog eq_sched)))) = Some (mkF 6 0 0).
+Proof. exact equivalence_visible_to_subscribers. Qed.
+Example C02_nonvacuous_exact_equivalence : forall a b, interp_ceqv CqExact a b = true -> a = b.
+Proof. exact ceqv_exact_is_exact. Qed.
 
 (* ---------- generated ids: "the first unused candidate at the instant of the write" is NOT the reference ---------- *)
 Definition gen_wo := mkFWO None None None None false None false None false None None false true true true.
